@@ -5,6 +5,7 @@ go 1.24
 require (
 	github.com/golang/snappy v1.0.0
 	github.com/philpearl/avro v0.0.0
+	github.com/unravelin/null/v5 v5.0.1
 )
 
 replace github.com/philpearl/avro => /repo
